@@ -152,9 +152,7 @@ theorem fireTimer_FOK (w : World) (t : Timer × TimerId) (h : FOK w) : FOK (fire
 theorem evInbound_FOK {w : World} {p : World × Option Err} (h : FOK w) (hE : evInbound w = some p) : FOK p.1 := by
   unfold evInbound at hE
   split at hE
-  · split at hE
-    · cases hE; exact addConn_FOK _ _ _ h
-    · cases hE
+  · cases hE; exact addConn_FOK _ _ _ h
   · cases hE
 
 theorem evConnected_FOK {w : World} {k : Nat} {p : World × Option Err} (h : FOK w)
